@@ -2,21 +2,22 @@
 Path enumerations of `Market._cancel_order` (see SrcCancelDefs.lean): `nf%` computes the pruned paths of
 the symbolic run of the *current* translated source, `rfl` makes the kernel re-check them.
 -/
+import PamsLemmas.EvalNf
 import PamsLemmas.SrcCancelDefs
 
 namespace Pams.Src
 open Pams Pams.Py
 set_option maxRecDepth 1000000
 
-theorem cancelP_ft_alone : cancelPaths false true .alone = nf% (cancelPaths false true .alone) := by rfl
-theorem cancelP_ft_top : cancelPaths false true .top = nf% (cancelPaths false true .top) := by rfl
-theorem cancelP_ft_second : cancelPaths false true .second = nf% (cancelPaths false true .second) := by rfl
-theorem cancelP_ft_goneEmpty : cancelPaths false true .goneEmpty = nf% (cancelPaths false true .goneEmpty) := by rfl
-theorem cancelP_ft_goneOther : cancelPaths false true .goneOther = nf% (cancelPaths false true .goneOther) := by rfl
-theorem cancelP_ff_alone : cancelPaths false false .alone = nf% (cancelPaths false false .alone) := by rfl
-theorem cancelP_ff_top : cancelPaths false false .top = nf% (cancelPaths false false .top) := by rfl
-theorem cancelP_ff_second : cancelPaths false false .second = nf% (cancelPaths false false .second) := by rfl
-theorem cancelP_ff_goneEmpty : cancelPaths false false .goneEmpty = nf% (cancelPaths false false .goneEmpty) := by rfl
-theorem cancelP_ff_goneOther : cancelPaths false false .goneOther = nf% (cancelPaths false false .goneOther) := by rfl
+theorem cancelP_ft_alone : cancelPaths false true .alone = evalnf% (cancelPaths false true .alone) := by kernel_rfl
+theorem cancelP_ft_top : cancelPaths false true .top = evalnf% (cancelPaths false true .top) := by kernel_rfl
+theorem cancelP_ft_second : cancelPaths false true .second = evalnf% (cancelPaths false true .second) := by kernel_rfl
+theorem cancelP_ft_goneEmpty : cancelPaths false true .goneEmpty = evalnf% (cancelPaths false true .goneEmpty) := by kernel_rfl
+theorem cancelP_ft_goneOther : cancelPaths false true .goneOther = evalnf% (cancelPaths false true .goneOther) := by kernel_rfl
+theorem cancelP_ff_alone : cancelPaths false false .alone = evalnf% (cancelPaths false false .alone) := by kernel_rfl
+theorem cancelP_ff_top : cancelPaths false false .top = evalnf% (cancelPaths false false .top) := by kernel_rfl
+theorem cancelP_ff_second : cancelPaths false false .second = evalnf% (cancelPaths false false .second) := by kernel_rfl
+theorem cancelP_ff_goneEmpty : cancelPaths false false .goneEmpty = evalnf% (cancelPaths false false .goneEmpty) := by kernel_rfl
+theorem cancelP_ff_goneOther : cancelPaths false false .goneOther = evalnf% (cancelPaths false false .goneOther) := by kernel_rfl
 
 end Pams.Src
